@@ -169,8 +169,8 @@ impl Property for C16 {
     }
     fn runs(&self, tier: Tier) -> u64 {
         match tier {
-            Tier::Quick => 3000,
-            Tier::Thorough => 30000,
+            Tier::Quick => 25000,
+            Tier::Thorough => 250000,
         }
     }
     fn rule(&self) -> &'static str {
